@@ -254,7 +254,63 @@ Definition xr_eqb (a b : xr) : bool :=
   | _, _ => false end.
 Definition wr (id ty : Z) (pl img : list N) := leqb (rcon_write id ty pl) img.
 Definition rd (b : list N) (e : xr) := xr_eqb (sh (run_flat rcon_read b)) e.
+(* alogin / acmd: (ok, ReqID afterwards, bytes written or the command, bytes left) or a reader error *)
+Inductive xa := AOk (ok : bool) (sid : Z) (w : list N) (r : N) | ARdErr | APanic | AFuel.
+Definition sha (r : fres ((Z * list N) * bool)) : xa :=
+  match r with FOk ((sid, w), ok) rest => AOk ok sid w (lenN rest) | FErr _ => ARdErr | FPanic _ => APanic | FFuel => AFuel end.
+Definition xa_eqb (a b : xa) : bool :=
+  match a, b with
+  | AOk o s w r, AOk o' s' w' r' => Bool.eqb o o' && Z.eqb s s' && leqb w w' && N.eqb r r'
+  | ARdErr, ARdErr | APanic, APanic | AFuel, AFuel => true
+  | _, _ => false end.
+Definition alogin (pws c2s : list N) (e : xa) := xa_eqb (sha (run_flat (accept_login pws) c2s)) e.
+Definition acmd (c2s : list N) (e : xa) := xa_eqb (sha (run_flat accept_cmd c2s)) e.
+(* resp: the payload and the bytes left, or an error *)
+Inductive xp := POk (p : list N) (r : N) | PErr | PPanic | PFuel.
+Definition shp (r : fres (list N)) : xp :=
+  match r with FOk p rest => POk p (lenN rest) | FErr _ => PErr | FPanic _ => PPanic | FFuel => PFuel end.
+Definition xp_eqb (a b : xp) : bool :=
+  match a, b with
+  | POk p r, POk p' r' => leqb p p' && N.eqb r r'
+  | PErr, PErr | PPanic, PPanic | PFuel, PFuel => true
+  | _, _ => false end.
+Definition resp (id : Z) (s2c : list N) (e : xp) := xp_eqb (shp (run_flat (resp_recv id) s2c)) e.
+(* sess: the observations, the server's ReqID at the end and - unless the run ended in an error - both wires *)
+Definition obs_eqb (a b : obs) : bool :=
+  match a, b with
+  | OSent, OSent | OErr, OErr => true
+  | OCmd x, OCmd y | OResp x, OResp y => leqb x y
+  | _, _ => false end.
+Fixpoint obsl_eqb (a b : list obs) : bool :=
+  match a, b with [], [] => true | x :: a', y :: b' => obs_eqb x y && obsl_eqb a' b' | _, _ => false end.
+Definition sess (id sid0 : Z) (evs : list ev) (os : list obs) (sid1 : Z) (wires : option (list N * list N)) : bool :=
+  let '(o, k) := run_session id evs {| c2s := []; s2c := []; sid := sid0 |} in
+  obsl_eqb o os && Z.eqb (sid k) sid1 &&
+  match wires with Some (a, b) => leqb (c2s k) a && leqb (s2c k) b | None => true end.
 """
+
+C16_EV = {"C:": "ECmd", "R:": "EResp", "XC:": "EXC", "XS:": "EXS"}
+C16_OBS = {"C:": "OCmd", "R:": "OResp"}
+
+
+def c16_tok(t, table, plain):
+    if t in plain:
+        return plain[t]
+    for pre in sorted(table, key=len, reverse=True):
+        if t.startswith(pre):
+            return "(%s %s)" % (table[pre], bytes_of_hex(t[len(pre):]))
+    raise ValueError(t)
+
+
+def c16_acc(kind, args, o, rderr_sid):
+    """alogin / acmd result line -> xa term"""
+    if len(o) == 5 and o[1] in ("ok", "err"):
+        return "%s %s (AOk %s %s %s %s)" % (kind, args, "true" if o[1] == "ok" else "false", zlit(o[2]), bytes_of_hex(o[3]), nlit(o[4]))
+    if len(o) == 3 and o[1] == "rderr" and o[2] == rderr_sid:      # the driver echoes the untouched ReqID
+        return "%s %s ARdErr" % (kind, args)
+    if len(o) == 2 and o[1] in ("panic", "fuel"):
+        return "%s %s %s" % (kind, args, {"panic": "APanic", "fuel": "AFuel"}[o[1]])
+    return None
 
 
 def c16(case, out):
@@ -268,6 +324,26 @@ def c16(case, out):
             return "rd %s (XOk %s %s %s %s)" % (bytes_of_hex(c[1]), zlit(o[2]), zlit(o[3]), bytes_of_hex(o[4]), nlit(o[5]))
         if len(o) == 2 and o[1] in ("err", "panic", "fuel"):
             return "rd %s %s" % (bytes_of_hex(c[1]), {"err": "XErr", "panic": "XPanic", "fuel": "XFuel"}[o[1]])
+    if c[0] == "alogin" and len(c) == 4:
+        return c16_acc("alogin", "%s %s" % (bytes_of_hex(c[2]), bytes_of_hex(c[3])), o, c[1])
+    if c[0] == "acmd" and len(c) == 3:
+        return c16_acc("acmd", bytes_of_hex(c[2]), o, c[1])
+    if c[0] == "resp" and len(c) == 3:
+        if len(o) == 4 and o[1] == "ok":
+            return "resp %s %s (POk %s %s)" % (zlit(c[1]), bytes_of_hex(c[2]), bytes_of_hex(o[2]), nlit(o[3]))
+        if len(o) == 2 and o[1] in ("err", "panic", "fuel"):
+            return "resp %s %s %s" % (zlit(c[1]), bytes_of_hex(c[2]), {"err": "PErr", "panic": "PPanic", "fuel": "PFuel"}[o[1]])
+    if c[0] == "sess" and len(c) >= 3 and "|" in o:
+        bar = o.index("|")
+        evs = [c16_tok(t, C16_EV, {"A": "EAccept", "V": "ERecv"}) for t in c[3:]]
+        obs = [c16_tok(t, C16_OBS, {"S": "OSent", "E": "OErr"}) for t in o[1:bar]]
+        tail = dict(t.split("=", 1) for t in o[bar + 1:])
+        if "sid" not in tail or set(tail) - {"sid", "c2s", "s2c"}:
+            return None
+        wires = "None"
+        if "c2s" in tail and "s2c" in tail:
+            wires = "(Some (%s, %s))" % (bytes_of_hex(tail["c2s"]), bytes_of_hex(tail["s2c"]))
+        return "sess %s %s [%s] [%s] %s %s" % (zlit(c[1]), zlit(c[2]), "; ".join(evs), "; ".join(obs), zlit(tail["sid"]), wires)
     return None
 
 
